@@ -238,7 +238,7 @@ fn c01_woff2_hmtx_over_untransformed_glyf() {
     kani::assume(buf[0] < 4);
     let entry = TableDirectoryEntry { tag: 0x686D_7478, offset: 0, orig_length: 0, transform_length: Some(1) };
     let r = ReadScope::new(&buf).read_dep::<Woff2HmtxTable>((&entry, &glyf, 2, 1));
-    kani::cover!(r.is_ok(), "reconstructed");
+    kani::cover!(r.is_err(), "rejected as malformed");
     std::mem::forget(r);
     std::mem::forget(glyf);
 }
